@@ -350,18 +350,37 @@ def validity (m, seg_max = 1 / 20., seg_min = 1 / 200., check_junction_ratio = 1
         nb.setdefault (a, set ()).add (b)
         nb.setdefault (b, set ()).add (a)
     gs = sorted (byg)
-    mind = np.inf
+    mind = mind2 = np.inf
     for i, ga in enumerate (gs):
         for gb in gs [:i]:
-            if gb in nb.get (ga, ()) or (nb.get (ga, set ()) & nb.get (gb, set ())):
+            if gb in nb.get (ga, ()):
+                continue
+            common = nb.get (ga, set ()) & nb.get (gb, set ())
+            if common:
+                # two wires on a common neighbour start close to each other, but must not come back
+                # together further out: the program treats them as connected and uses the on-wire (exact)
+                # kernel for points within (d0 + d3) <= 1.1 segment lengths of a segment of the other wire
+                cseg = [x for c in common for x in byg [c]]
+                def touches (s):
+                    return any (min (np.linalg.norm (s [a] - x [b]) for a in ('p1', 'p2') for b in ('p1', 'p2')) < 1e-9 * s ['l'] for x in cseg)
+                for sa in byg [ga]:
+                    ta = touches (sa)
+                    for sb in byg [gb]:
+                        if ta and touches (sb):
+                            continue
+                        d = seg_seg_dist (sa ['p1'], sa ['p2'], sb ['p1'], sb ['p2'])
+                        mind2 = min (mind2, d / max (sa ['l'], sb ['l']))
                 continue
             for sa in byg [ga]:
                 for sb in byg [gb]:
                     d = seg_seg_dist (sa ['p1'], sa ['p2'], sb ['p1'], sb ['p2'])
                     mind = min (mind, d / max (sa ['l'], sb ['l']))
     facts ['min_sep'] = float (mind)
+    facts ['min_sep_common'] = float (mind2)
     if mind < 2:
         why.append ('unconnected wires < 2 segment lengths apart')
+    if mind2 < 0.5:
+        why.append ('wires on a common neighbour pass < 0.5 segment lengths from each other')
     # non-adjacent segments of the same or neighbouring wires must not come close either
     # (folded structures): approximated by requiring bends >= 40 deg (above).
     if m.media is not None:
